@@ -252,7 +252,8 @@ def _return_aliases(body):
             if not d.is_local():
                 continue
             D = d.local
-            if D in full and fr["ret"] not in full:
+            Ds = fr.get("aliases") if fr.get("async") else {D}
+            if Ds & full and fr["ret"] not in full:
                 full.add(fr["ret"]); changed = True
             # `return helper(..)` / helper call in tail position: the hand-over to the return local follows the call directly
             # (a result parked in a local and returned later keeps its own, later, return site - as before the extraction)
@@ -260,26 +261,28 @@ def _return_aliases(body):
             for _ in range(5):
                 chain.append(cur)
                 tb = body.blocks[cur]
-                if tb.term.kind != "goto":
+                if tb.term.kind != "goto" and not (fr.get("async") and tb.term.kind == "drop"):
                     break
                 cur = tb.term.d["t"]
             for bi in chain:
                 for si, st in enumerate(body.blocks[bi].stmts):
-                    if st.kind == "assign" and st.dest.is_local() and st.dest.local in full and st.rv["k"] == "use" and not st.rv["a"].is_const() and st.rv["a"].place.is_local() and st.rv["a"].place.local == D:
+                    if st.kind == "assign" and st.dest.is_local() and st.dest.local in full and st.rv["k"] == "use" and not st.rv["a"].is_const() and st.rv["a"].place.is_local() and st.rv["a"].place.local in Ds:
                         copies.add((bi, si))
                         if fr["ret"] not in full:
                             full.add(fr["ret"]); changed = True
             for b in body.calls(live_only=False):
                 c = b.term.callee or b.term.declared or ""
-                if (c.endswith("::Try>::branch") or (b.term.declared or "").endswith("Try::branch")) and b.term.args and not b.term.args[0].is_const() and b.term.args[0].place.is_local() and b.term.args[0].place.local == D:
+                if (c.endswith("::Try>::branch") or (b.term.declared or "").endswith("Try::branch")) and b.term.args and not b.term.args[0].is_const() and b.term.args[0].place.is_local() and b.term.args[0].place.local in Ds:
                     if fr["ret"] not in err and fr["ret"] not in full:
                         err.add(fr["ret"]); changed = True
-            if D in err and fr["ret"] not in err and fr["ret"] not in full:
+            if Ds & err and fr["ret"] not in err and fr["ret"] not in full:
                 err.add(fr["ret"]); changed = True
     for fr in frames:
         # the statement that hands a frame's return local to its destination is plumbing, not a return site
         for b, si, st in body.assigns():
             if st.rv["k"] == "use" and not st.rv["a"].is_const() and st.rv["a"].place.is_local() and st.rv["a"].place.local == fr["ret"] and st.dest == fr["dest"]:
+                copies.add((b.idx, si))
+            if fr.get("async") and st.dest.is_local() and st.dest.local in fr["aliases"]:
                 copies.add((b.idx, si))
     return full, err, copies
 
@@ -518,14 +521,16 @@ def error_exit_blocks(body):
     """Blocks that set the return value to an error (`?` residual or an explicit Err)."""
     out = set()
     live = body.live_blocks()
+    full, err, _ = _return_aliases(body)  # with inlined helper frames: also the helper's own error exits when its result is returned / `?`-ed
+    rl = full | err
     for b in body.blocks:
         if b.idx not in live or b.cleanup:
             continue
         for st in b.stmts:
-            if st.kind == "assign" and st.dest.is_local() and st.dest.local == 0 and st.rv["k"] == "agg" and st.rv.get("var") == "Err":
+            if st.kind == "assign" and st.dest.is_local() and st.dest.local in rl and st.rv["k"] == "agg" and st.rv.get("var") == "Err":
                 out.add(b.idx)
         t = b.term
-        if t.kind == "call" and t.d["d"].is_local() and t.d["d"].local == 0 and re.search(r"FromResidual.*::from_residual$", t.callee or t.declared or ""):
+        if t.kind == "call" and t.d["d"].is_local() and t.d["d"].local in rl and re.search(r"FromResidual.*::from_residual$", t.callee or t.declared or ""):
             out.add(b.idx)
     return out
 
@@ -795,7 +800,14 @@ def _subst_expr(e, old, new):
         return new
     if not isinstance(e, tuple):
         return e
-    return tuple(_subst_expr(x, old, new) if isinstance(x, tuple) else x for x in e)
+    r = tuple(_subst_expr(x, old, new) if isinstance(x, tuple) else x for x in e)
+    # a field of a tuple / aggregate that the substitution made literal
+    if r and r[0] == "field" and len(r) == 3 and isinstance(r[1], tuple):
+        if r[1][0] == "tuple" and r[2].isdigit() and int(r[2]) < len(r[1][1]):
+            return r[1][1][int(r[2])]
+        if r[1][0] == "agg" and any(n_ == r[2] for n_, _ in r[1][3]):
+            return [x for n_, x in r[1][3] if n_ == r[2]][0]
+    return r
 
 
 def _namesake_sources(e, names):
